@@ -104,6 +104,21 @@ func genScript(t *tape.Tape) []call {
 			s = append(s, call{Name: "fd_read", Args: []uint64{fd(), 0x400, 1, 0x100}, Pre: []pre{{0x400, append(u32(0x1000), u32(32)...)}}, Out: [][2]uint32{{0x100, 4}, {0x1000, 32}}})
 		case 12, 13:
 			m := []byte(marker)
+			if t.Chance(1, 2) {
+				// a vectored write of 2-3 pieces; the last piece may lie outside the memory (the call fails
+				// after the host has looked at the pieces before it)
+				niov := 2 + t.Choose(2)
+				var iov []byte
+				for k := 0; k < niov; k++ {
+					ptr, ln := uint32(0x3000+4*k), uint32(3+k)
+					if k == niov-1 && t.Chance(1, 3) {
+						ptr, ln = 0x7fff0000, 64
+					}
+					iov = append(append(iov, u32(ptr)...), u32(ln)...)
+				}
+				s = append(s, call{Name: "fd_write", Args: []uint64{fd(), 0x400, uint64(niov), 0x100}, Pre: []pre{{0x100, u32(0)}, {0x400, iov}, {0x3000, m}}, Out: [][2]uint32{{0x100, 4}}})
+				break
+			}
 			s = append(s, call{Name: "fd_write", Args: []uint64{fd(), 0x400, 1, 0x100}, Pre: []pre{{0x400, append(u32(0x3000), u32(uint32(len(m)))...)}, {0x3000, m}}, Out: [][2]uint32{{0x100, 4}}})
 		case 14:
 			s = append(s, call{Name: "fd_fdstat_get", Args: []uint64{fd(), 0x500}, Out: [][2]uint32{{0x500, 24}}})
